@@ -338,7 +338,9 @@ func ruleNilGuard(c *Ctx) {
 				if d := p.singleDef(f, lv); d != nil {
 					if fv := SelField(info, ast.Unparen(d)); fv != nil && optional[fv] != "" {
 						if _, isIface := fv.Type().Underlying().(*types.Interface); !isIface {
-							sites = append(sites, site{inner, x, fv})
+							// decided where the local is bound: the field must be known
+							// non-nil there (the local cannot change afterwards)
+							sites = append(sites, site{ast.Unparen(d), d, fv})
 						}
 						return true
 					}
